@@ -54,13 +54,17 @@ fn serialize_char_infos(file: &File, bc: Char, ec: Char, b: &mut Vec<u8>) {
     for (c, dimens) in &file.char_dimens {
         v[(c.0 - bc.0) as usize].0 = Some(dimens.clone());
     }
+    // Tags can be attached to characters that have no dimensions, and these characters
+    // may be outside the range [bc, ec] on either side. Such tags are not serialized.
     for (c, tag) in &file.char_tags {
-        if let Some(slot) = v.get_mut((c.0 - bc.0) as usize) {
+        let slot = c.0.checked_sub(bc.0).and_then(|i| v.get_mut(i as usize));
+        if let Some(slot) = slot {
             slot.1 = SerializableCharTag::Valid(tag.clone());
         }
     }
     for (c, tag) in &file.unset_char_tags {
-        if let Some(slot) = v.get_mut((c.0 - bc.0) as usize) {
+        let slot = c.0.checked_sub(bc.0).and_then(|i| v.get_mut(i as usize));
+        if let Some(slot) = slot {
             slot.1 = SerializableCharTag::Unset(*tag);
         }
     }
